@@ -15,8 +15,12 @@ model of the same contract:
   classes) and is handed to the next object of that type that is asked for its identity.  The
   order in which the free list is drained is a recorded policy: ``fifo``, ``lifo`` or seeded
   ``random``;
-* objects that cannot be weakly referenced keep their real address (large numbers; the recycled
-  identities are small, so the two ranges never meet).
+* objects that cannot be weakly referenced (classes whose ``__slots__`` leave out ``__weakref__``,
+  e.g. ``yaw.Catalog``) are pinned by the seam once they have been asked for their identity and are
+  released at the next ``collect()`` at which nothing but the seam refers to them: their death is
+  deferred to a point the check decides, never advanced.  Built-in immortals and containers
+  (``int``, ``str``, ``tuple``, ...) keep their real address (large numbers; recycled identities are
+  small, so the two ranges never meet).
 
 The cyclic garbage collector is switched off inside the block, so that the instant at which cycles
 are released does not depend on the allocation counters inherited from the parent process.
@@ -26,6 +30,7 @@ from __future__ import annotations
 
 import builtins
 import gc
+import sys
 import weakref
 
 _real_id = builtins.id
@@ -37,6 +42,7 @@ class IdentitySeam:
         self.policy = policy
         self.state = (seed * 0x9E3779B97F4A7C15 + 0x1234567) & 0xFFFFFFFFFFFFFFFF
         self.live: dict[int, tuple[int, weakref.ref]] = {}
+        self.pinned: dict[int, tuple[int, object]] = {}
         self.free: dict[type, list[int]] = {}
         self.next = 1 << 8
         self.asked = 0
@@ -63,8 +69,12 @@ class IdentitySeam:
         try:
             ref = weakref.ref(obj, lambda _r, rid=rid, tp=tp: self._released(rid, tp, _r))
         except TypeError:
-            self.fallback += 1
-            return rid
+            if tp.__module__ == "builtins" or rid in self.pinned:
+                if rid in self.pinned:
+                    return self.pinned[rid][0]
+                self.fallback += 1
+                return rid
+            ref = None
         self.asked += 1
         pool = self.free.get(tp)
         if pool:
@@ -78,7 +88,10 @@ class IdentitySeam:
         else:
             fid = self.next
             self.next += 1
-        self.live[rid] = (fid, ref)
+        if ref is None:
+            self.pinned[rid] = (fid, obj)
+        else:
+            self.live[rid] = (fid, ref)
         return fid
 
     def _released(self, rid: int, tp: type, ref) -> None:
@@ -88,7 +101,28 @@ class IdentitySeam:
             if self.active:
                 self.free.setdefault(tp, []).append(ent[0])
 
+    def collect(self) -> None:
+        """Release cyclic garbage now (the collector is off inside the block, so that *when* cycles
+        die is a decision of the check, not of inherited allocation counters).  Only the two young
+        generations are scanned: everything that existed when the block was entered sits in the
+        oldest one after the full collection done there."""
+        gc.collect(1)
+        again = True
+        while again:
+            again = False
+            for rid in list(self.pinned):
+                if sys.getrefcount(self.pinned[rid][1]) <= self._alone:
+                    fid, obj = self.pinned.pop(rid)
+                    self.free.setdefault(type(obj), []).append(fid)
+                    del obj  # dies here, possibly releasing other pinned objects
+                    again = True
+
+    def _calibrate(self) -> int:
+        probe = {0: (0, object())}
+        return sys.getrefcount(probe[0][1])
+
     def __enter__(self):
+        self._alone = self._calibrate()
         self._gc = gc.isenabled()
         gc.collect()
         gc.disable()
@@ -100,6 +134,7 @@ class IdentitySeam:
         builtins.id = _real_id
         self.active = False
         self.live.clear()
+        self.pinned.clear()
         if self._gc:
             gc.enable()
         return False
